@@ -8,6 +8,7 @@ import (
 	"context"
 	"fmt"
 	"net/http"
+	"reflect"
 	"runtime"
 	"strings"
 	"sync"
@@ -93,7 +94,7 @@ func c18Kinds() []c18Kind {
 	ks = append(ks, c18Kind{"quic", func(d *env.Dialer) (c14Transport, func() []string) {
 		var cmu sync.Mutex
 		var conns []*env.FakeQuicConn
-		t := NewQuicTransport(QuicTransportOpts{DialContext: func(ctx context.Context) (quic.Connection, error) {
+		qopts := QuicTransportOpts{DialContext: func(ctx context.Context) (quic.Connection, error) {
 			// reuse the scripted dialer's outcome script; the produced net.Conn is discarded
 			c, err := d.Dial(ctx)
 			if err != nil {
@@ -102,9 +103,15 @@ func c18Kinds() []c18Kind {
 			fc := env.NewFakeQuicConn(c.LocalAddr(), c.RemoteAddr())
 			cmu.Lock()
 			conns = append(conns, fc)
+			c18QuicConns = append([]*env.FakeQuicConn(nil), conns...)
 			cmu.Unlock()
 			return fc, nil
-		}})
+		}}
+		// (should the options ever grow an idle time-out, the scenarios that let long silences pass run with it switched on)
+		if f := reflect.ValueOf(&qopts).Elem().FieldByName("IdleTimeout"); f.IsValid() && f.CanSet() && f.Type() == reflect.TypeOf(time.Duration(0)) {
+			f.SetInt(int64(30 * time.Second))
+		}
+		t := NewQuicTransport(qopts)
 		return t, func() []string {
 			var bad []string
 			cmu.Lock()
@@ -379,6 +386,152 @@ func c18Scenario(c *choice.Ctx, rep *report.R, k c18Kind, depth int) {
 	rep.State(fmt.Sprintf("%s|%v|%d", k.name, st, d.NumConns()))
 }
 
+// c18Burst: more exchanges at once than any of the explored sequences has - 24 in flight together on the stream kinds (the
+// one-at-a-time transport then holds 24 connections) - all answered, a second round on the now idle connections, then Close: every
+// connection the transport ever made is closed when Close has returned, none is left to an idle timer.
+func c18Burst(rep *report.R) {
+	for _, k := range c18Kinds() {
+		if k.name == "quic" || k.name == "doh" {
+			continue
+		}
+		own := env.InstallOwn(0xA5, vRace)
+		network := "udp"
+		if k.tcp {
+			network = "tcp"
+		}
+		d := env.NewDialer(network)
+		tr, _ := k.mk(d)
+		desc := "24 concurrent exchanges on " + k.name + ", all answered, 24 more (answered with replies of 5 KiB on the stream kinds), Close"
+		rep.Eval("burst: " + desc)
+		fail := func(sig, msg string) {
+			rep.Violate("C18:"+k.name+":burst:"+sig, msg+"\n  "+desc, map[string]any{"Choices": []int{}, "Kind": k.name, "Burst": true})
+		}
+		var calls []*call
+		handled := map[int]int{}
+		big := false
+		answerAll := func() {
+			for round := 0; round < 3; round++ {
+				for ci := 0; ci < d.NumConns(); ci++ {
+					impl := d.ImplEnd(ci)
+					qs := env.QueriesOn(ci, impl, k.tcp)
+					for handled[ci] < len(qs) && !impl.IsClosed() && qs[handled[ci]].Msg != nil {
+						am := env.Answer(qs[handled[ci]].Msg, byte(1+handled[ci]%200), 60)
+						if k.tcp && big {
+							// a reply well beyond the few KiB a transport may read in one piece
+							am.Ar = append(am.Ar, refdns.Unknown(refdns.N("pad", "test"), 65280, 1, make([]byte, 5000)))
+						}
+						b := am.Encode(false)
+						handled[ci]++
+						if k.tcp {
+							b = refdns.Frame(b)
+						}
+						impl.Inject(b)
+					}
+				}
+				wait()
+			}
+		}
+		for round := 0; round < 2; round++ {
+			for i := 0; i < 24; i++ {
+				cl := newCall(len(calls), 0)
+				calls = append(calls, cl)
+				cl.start(tr.(exchanger), 5*time.Second)
+			}
+			wait()
+			big = round == 1
+			answerAll()
+		}
+		for _, cl := range calls {
+			if !cl.done || cl.resp == nil {
+				fail("exchange-failed", fmt.Sprintf("exchange %d against a healthy server: %s", cl.idx, cl))
+				break
+			}
+		}
+		tr.Close()
+		wait()
+		if open := d.OpenImplConns(); len(open) > 0 {
+			fail("connection-left-open", fmt.Sprintf("%d of %d connections are still open after Close: %v", len(open), d.NumConns(), open))
+		}
+		for _, cl := range calls {
+			cl.cancel()
+		}
+		hsleep(40 * time.Second)
+		wait()
+		for _, v := range own.Audit() {
+			fail("ownership", v)
+		}
+		env.UninstallOwn()
+	}
+}
+
+// c18QuicConns: the connections the quic kind's transport has dialled so far (for c18QuicIdle).
+var c18QuicConns []*env.FakeQuicConn
+
+// c18QuicIdle: a DoQ transport used at long intervals - three exchanges, more than half a minute of silence after each - and then
+// closed: every exchange is answered, and every connection the transport dialled over its life is closed when Close has returned
+// (whether it keeps one connection alive throughout or retires idle ones is its business).
+func c18QuicIdle(rep *report.R) {
+	for _, k := range c18Kinds() {
+		if k.name != "quic" {
+			continue
+		}
+		own := env.InstallOwn(0xA5, vRace)
+		c18QuicConns = nil
+		d := env.NewDialer("udp")
+		tr, audit := k.mk(d)
+		desc := "quic transport: 3 exchanges, 35 s of silence after each, Close"
+		rep.Eval("idle-periods: " + desc)
+		fail := func(sig, msg string) {
+			rep.Violate("C18:quic:idle-periods:"+sig, msg+"\n  "+desc, map[string]any{"Choices": []int{}, "Kind": "quic", "Idle": true})
+		}
+		answered := map[*env.FakeStream]bool{}
+		var calls []*call
+		for round := 0; round < 3; round++ {
+			cl := newCall(round, 0)
+			calls = append(calls, cl)
+			cl.start(tr.(exchanger), 5*time.Second)
+			wait()
+			for _, fc := range c18QuicConns {
+				for si := 0; si < fc.NumStreams(); si++ {
+					st, _ := fc.Stream(si)
+					if answered[st] || st.E.IsClosed() {
+						continue
+					}
+					if fs, _ := env.SplitFrames(st.E.Written()); len(fs) == 1 {
+						if q, err := refdns.Decode(fs[0]); err == nil {
+							answered[st] = true
+							st.E.Inject(refdns.Frame(env.Answer(q, byte(round+1), 60).Encode(false)))
+							st.E.Peer().CloseWrite()
+						}
+					}
+				}
+			}
+			wait()
+			if !cl.done || cl.resp == nil {
+				fail("exchange-failed", fmt.Sprintf("exchange %d against a healthy server after %d idle periods: %s", round, round, cl))
+			}
+			hsleep(35 * time.Second)
+			wait()
+		}
+		tr.Close()
+		wait()
+		if audit != nil {
+			for _, b := range audit() {
+				fail("connection-left-open", b+" after Close")
+			}
+		}
+		for _, cl := range calls {
+			cl.cancel()
+		}
+		hsleep(40 * time.Second)
+		wait()
+		for _, v := range own.Audit() {
+			fail("ownership", v)
+		}
+		env.UninstallOwn()
+	}
+}
+
 func TestVerifC18(t *testing.T) {
 	rep := report.New("C18 transport shutdown")
 	defer rep.Write()
@@ -399,6 +552,12 @@ func TestVerifC18(t *testing.T) {
 			}
 			st := runExplore(t, rep, bound, func(c *choice.Ctx) { c18Scenario(c, rep, k, depth) })
 			rep.Count("executions_"+k.name, st.Executions)
+		}
+		if sh, _ := report.Shard(); sh == 0 && report.ReplayFile() == nil && !pauseMode {
+			hmu.Lock()
+			c18Burst(rep)
+			c18QuicIdle(rep)
+			hmu.Unlock()
 		}
 	})
 	rep.Sample(map[string]any{"kind": "reuse-tcp", "events": "next-dial-late start0 close dial-completes", "expect": "the connection completing after Close is closed at once; exchange 0 fails"})
